@@ -212,6 +212,9 @@ class J1939_21:
                             # of the message we are about to transmit
 
                             buf['next_packet_to_send'] += 1
+                            if self._minimum_tp_rts_cts_dt_interval != None:
+                                # the configured minimum interval also applies across a CTS
+                                buf['next_dt_not_before'] = time.time() + self._minimum_tp_rts_cts_dt_interval
 
                             should_break = False
                             if package == buf['next_wait_on_cts']:
@@ -346,7 +349,8 @@ class J1939_21:
             self._snd_buffer[buffer_hash]['next_wait_on_cts'] = self._snd_buffer[buffer_hash]['next_packet_to_send'] + num_packages - 1
 
             self._snd_buffer[buffer_hash]['state'] = self.SendBufferState.SENDING_IN_CTS
-            self._snd_buffer[buffer_hash]['deadline'] = time.time()
+            # send at once, but not before the configured minimum interval since the last DT has elapsed
+            self._snd_buffer[buffer_hash]['deadline'] = max(time.time(), self._snd_buffer[buffer_hash].get('next_dt_not_before', 0))
             self.__job_thread_wakeup()
 
 
